@@ -214,10 +214,23 @@ func init() {
 		if c.Thorough {
 			maxDepth = 4
 		}
-		n := c.Choose(maxDepth + 1)
+		n := c.Choose(maxDepth + 2)
 		var argv []string
-		for i := 0; i < n; i++ {
+		if n == maxDepth+1 {
+			// beyond the depth bound, a thin probe: the full path to one node, one unit before it and one after it
+			node := td.cmds[c.Choose(len(td.cmds))]
+			var path []string
+			for x := node; x != nil && x.Parent != nil; x = x.Parent {
+				path = append([]string{x.Name}, path...)
+			}
 			argv = append(argv, td.units[c.Choose(len(td.units))]...)
+			argv = append(argv, path...)
+			argv = append(argv, td.units[c.Choose(len(td.units))]...)
+			c.Hit("deep-path-probe")
+		} else {
+			for i := 0; i < n; i++ {
+				argv = append(argv, td.units[c.Choose(len(td.units))]...)
+			}
 		}
 		c.Describe(func() interface{} {
 			return map[string]interface{}{"tree": describeTree(td.d.Top), "api_path": api, "argv": argv}
@@ -296,7 +309,7 @@ func init() {
 	explore.Register(&explore.Check{
 		ID:         "C08",
 		Level:      "model_checking",
-		ShardDepth: 2,
+		ShardDepth: 6,
 		Body:       body,
 		DevBound: func(th bool) int {
 			if th {
@@ -306,12 +319,12 @@ func init() {
 		},
 		Rule: "every command tree with <= 4 commands and depth <= 3 (all 32 parent arrays) plus the chain of depth 4, one counter flag per node; deviations from the plain tree (bounded: 1 quick / 2 thorough): aliases on <= 2 nodes, " +
 			"subcommands-optional on any subset of inner nodes incl. the parser, one node's flag letter clashing with its parent's or grandparent's, a deeper command reusing a top-level command's name, any subset of commands hidden; " +
-			"x {struct tags, API, API with executable commands, API where the parser's flag sits in a group that is added after the commands and after a parse that selected each of them} x every sequence of <= 3 (quick) / <= 4 (thorough) tokens over all names, aliases, every node's flag, one long flag and an unknown word; oracle = CLM active chain, scoping (which counter was incremented), " +
+			"x {struct tags, API, API with executable commands, API where the parser's flag sits in a group that is added after the commands and after a parse that selected each of them} x every sequence of <= 3 (quick) / <= 4 (thorough) tokens over all names, aliases, every node's flag, one long flag and an unknown word, plus beyond that bound [unit, full path to any node, unit]; oracle = CLM active chain, scoping (which counter was incremented), " +
 			"remaining arguments and ErrCommandRequired / ErrUnknownCommand",
 		Assumptions:  []string{"deviation-bounded over declaration features, exhaustive over trees and token sequences"},
 		RequiredHits: []string{"model-clean", "chain-depth>=2", "command-fault", "other-fault"},
 		Bound:        [2]string{"token sequences <= 3, <= 1 declaration deviation", "token sequences <= 4, <= 2 declaration deviations"},
-		BudgetS:      [2]int{100, 1500},
+		BudgetS:      [2]int{170, 1500},
 	})
 }
 
